@@ -715,7 +715,16 @@ func (e *kvElection) StopWithContext(ctx context.Context, opts StopOptions) erro
 		)...,
 	)
 
-	if opts.DeleteKey && wasLeader {
+	if opts.DeleteKey && wasLeader && !e.ownsRecord() {
+		// Preempted without having noticed yet: the record belongs to a successor, leave it alone
+		log := e.getLogger()
+		log.Warn("key_deletion_skipped",
+			append(e.logWithContext(ctx),
+				zap.String("key", e.key),
+				zap.String("reason", "record_not_owned"),
+			)...,
+		)
+	} else if opts.DeleteKey && wasLeader {
 		if err := e.kv.Delete(e.key); err != nil {
 			log := e.getLogger()
 			log.Warn("key_deletion_failed",
@@ -776,6 +785,20 @@ func (e *kvElection) StopWithContext(ctx context.Context, opts StopOptions) erro
 	}
 
 	return nil
+}
+
+// ownsRecord reports whether the leadership record currently carries this instance's
+// identity and the token of its last term.
+func (e *kvElection) ownsRecord() bool {
+	entry, err := e.kv.Get(e.key)
+	if err != nil || entry == nil {
+		return false
+	}
+	var current leadershipPayload
+	if err := json.Unmarshal(entry.Value(), &current); err != nil {
+		return false
+	}
+	return current.ID == e.cfg.InstanceID && current.Token == e.Token()
 }
 
 func (e *kvElection) Status() ElectionStatus {
